@@ -79,6 +79,16 @@ CHECKS['C16'] = dict(
     technique="Coq proof (loop invariant over the dependency map: edge accounting, order, cycle-search soundness) + exact-order differential check against interrogate_module",
     ref="5/C16")
 
+CHECKS['C19'] = dict(
+    text="Proof: in the model of the output phase (ofstream buffering with an ARBITRARY flush policy, fault oracle = index of the failing write(2)/close(2)), fail() false after close() "
+         "implies every byte reached the file; hence exit status 0 implies every requested output is complete, for every channel subset, write pattern and fault point; the pinned "
+         "main() is refuted by a one-fault witness (and was repaired). Fault enumeration on the real tools: the k-th write/writev/fclose on each output file is failed (ENOSPC, EIO) for "
+         "every k of the fault-free trace, plus unopenable targets; exit status and file completeness are compared with the model.",
+    note=TB + "libstdc++ ofstream semantics are modelled by hand (buffering policy left arbitrary); close(2) inside glibc's fclose cannot be interposed, a failing close is a failing fclose; "
+         "read-only targets are not exercised (checks run as root).",
+    technique="Coq proof (stream invariant disk+buf=written while good, for any flush policy and fault index) + exhaustive LD_PRELOAD fault enumeration on each output channel",
+    ref="5/C19")
+
 PENDING = {
 }
 
